@@ -1,8 +1,10 @@
+mod drive;
 mod pb;
 mod proj;
 mod run;
 mod sim;
 mod store;
+mod tree;
 
 use run::{Run, Setup, Sink};
 use serde_json::json;
@@ -42,8 +44,70 @@ fn main() {
     let args: Vec<String> = std::env::args().collect();
     match args.get(1).map(|s| s.as_str()) {
         Some("smoke") => smoke(args.get(2).map(|s| s.as_str()).unwrap_or("/dev/stdout")),
+        Some("walk") => {
+            // walk <out> <seed> <runs> <steps> <mode: honest|chaos|admin>
+            let out = &args[2];
+            let seed: u64 = args[3].parse().unwrap();
+            let runs: u64 = args[4].parse().unwrap();
+            let steps: usize = args[5].parse().unwrap();
+            let mode = args.get(6).map(|s| s.as_str()).unwrap_or("chaos");
+            let f = std::fs::File::create(out).unwrap();
+            let mut sink = Sink::new(Box::new(std::io::BufWriter::new(f)));
+            use rand::SeedableRng;
+            for k in 0..runs {
+                let mut rng = rand::rngs::StdRng::seed_from_u64(seed ^ (k << 20));
+                let setup = drive::random_setup(&mut rng);
+                let opts = drive::WalkOpts { honest: mode == "honest", admin_ops: mode == "admin", steps };
+                drive::walk(&mut sink, seed, k + 1, setup, &opts);
+            }
+            eprintln!("lines={}", sink.n);
+        }
+        Some("exec") => {
+            // exec <in.ndjson> <out.ndjson>: re-executes the calls of a recorded trace (linear, with
+            // instantiate lines starting new runs) against the current tree
+            let text = std::fs::read_to_string(&args[2]).unwrap();
+            let f = std::fs::File::create(&args[3]).unwrap();
+            let mut sink = Sink::new(Box::new(std::io::BufWriter::new(f)));
+            let mut cur: Option<Run> = None;
+            for line in text.lines() {
+                if line.trim().is_empty() {
+                    continue;
+                }
+                let v: serde_json::Value = serde_json::from_str(line).unwrap();
+                let call = v.get("call").cloned().unwrap_or(v.clone());
+                if call["m"] == "instantiate" {
+                    let setup = run::setup_from_call(&call);
+                    let mut r = Run::new(setup, call["run"].as_u64().unwrap_or(0));
+                    r.start(&mut sink);
+                    cur = Some(r);
+                } else if let Some(r) = cur.as_mut() {
+                    r.apply(&mut sink, &call);
+                }
+            }
+            eprintln!("lines={}", sink.n);
+        }
+        Some("tree") => {
+            // tree <tlc-output-with-EDGE-lines> <out.ndjson> <sample_mod> <seed>
+            let text = std::fs::read_to_string(&args[2]).unwrap();
+            let f = std::fs::File::create(&args[3]).unwrap();
+            let mut sink = Sink::new(Box::new(std::io::BufWriter::new(f)));
+            let sample_mod: u64 = args[4].parse().unwrap();
+            let seed: u64 = args[5].parse().unwrap();
+            match tree::run_tree(&text, &mut sink, sample_mod, seed) {
+                Ok(st) => {
+                    let by: serde_json::Map<String, serde_json::Value> = st.by_kind.iter().map(|(k, v)| (k.clone(), json!({"ok": v.0, "refused": v.1}))).collect();
+                    println!("{}", json!({"edges": st.edges, "executed": st.executed, "ok": st.ok_edges, "refused": st.refused_edges,
+                        "mismatches": st.mismatches, "logged": st.logged, "max_depth": st.max_depth, "by_kind": by,
+                        "first_mismatch": st.first_mismatch, "lines": sink.n}));
+                }
+                Err(e) => {
+                    eprintln!("tree: {e}");
+                    std::process::exit(2);
+                }
+            }
+        }
         _ => {
-            eprintln!("usage: mwh smoke <out>");
+            eprintln!("usage: mwh smoke <out> | walk <out> <seed> <runs> <steps> <mode>");
             std::process::exit(2);
         }
     }
